@@ -33,6 +33,9 @@ enum StateAnswer {
     BlockingScalar(usize),
     BlockingInSet(usize),
     IppStatus0503,
+    /// error statuses whose low byte is zero (an exit status derived from the code would wrap to 0)
+    IppStatus0400,
+    IppStatus0500,
     Http500,
 }
 
@@ -41,6 +44,9 @@ enum PrintAnswer {
     Ok0000,
     Ok0001,
     Err040a,
+    Err0400,
+    Err0500,
+    Err0507,
     Http403,
     Cut,
 }
@@ -65,10 +71,21 @@ fn state_answers() -> Vec<StateAnswer> {
         v.push(StateAnswer::BlockingInSet(i));
     }
     v.push(StateAnswer::IppStatus0503);
+    v.push(StateAnswer::IppStatus0400);
+    v.push(StateAnswer::IppStatus0500);
     v.push(StateAnswer::Http500);
     v
 }
-const PRINT_ANSWERS: [PrintAnswer; 5] = [PrintAnswer::Ok0000, PrintAnswer::Ok0001, PrintAnswer::Err040a, PrintAnswer::Http403, PrintAnswer::Cut];
+const PRINT_ANSWERS: [PrintAnswer; 8] = [
+    PrintAnswer::Ok0000,
+    PrintAnswer::Ok0001,
+    PrintAnswer::Err040a,
+    PrintAnswer::Err0400,
+    PrintAnswer::Err0500,
+    PrintAnswer::Err0507,
+    PrintAnswer::Http403,
+    PrintAnswer::Cut,
+];
 
 impl StateAnswer {
     fn ready(&self) -> bool {
@@ -83,6 +100,8 @@ impl StateAnswer {
             StateAnswer::BlockingScalar(i) => (0, 3, vec![kw(BLOCKING3[*i])]),
             StateAnswer::BlockingInSet(i) => (0, 4, vec![kw("media-low"), kw(BLOCKING3[*i]), kw("none")]),
             StateAnswer::IppStatus0503 => (0x0503, 3, vec![kw("none")]),
+            StateAnswer::IppStatus0400 => (0x0400, 3, vec![kw("none")]),
+            StateAnswer::IppStatus0500 => (0x0500, 3, vec![kw("none")]),
             StateAnswer::Http500 => (0, 3, vec![kw("none")]),
         };
         let mut m = Msg::new(0x0101, status, id);
@@ -114,6 +133,9 @@ impl PrintAnswer {
             PrintAnswer::Ok0000 => 0,
             PrintAnswer::Ok0001 => 1,
             PrintAnswer::Err040a => 0x040a,
+            PrintAnswer::Err0400 => 0x0400,
+            PrintAnswer::Err0500 => 0x0500,
+            PrintAnswer::Err0507 => 0x0507,
             _ => 0,
         };
         let mut m = Msg::new(0x0101, status, id);
@@ -358,7 +380,7 @@ pub fn run(ctx: &Ctx) -> ! {
     let mut rep = Report::new(
         ctx,
         "exploration",
-        "the real ipputil binary (built from /repo's working tree) against scripted loopback printers. (A) every list of 0..2 (3) options from {a=true, a=false, n=0, n=-1, n=2147483647, n=2147483648, x=1.5, k=v=w, e=, t=True} (duplicate keys included) x -j {absent, job, 'jöb name'} x -u {absent, u}; (B) content {0 B, 1 B, %PDF + every byte value, 8191/8192/8193 B, 1 MiB+1 (8 MiB+1)} x {-f file, stdin} x -H {none, X-A=b}; (C) printer scripts: Get-Printer-Attributes answered {idle/none, processing/informational, stopped, idle + each of the 10 blocking reasons as scalar and inside a set, IPP 0x0503, HTTP 500} with the state check on, and Print-Job answered {0x0000, 0x0001, 0x040a, HTTP 403, connection cut} with the check on (ready printer) and off. Oracle: request sequence seen by the peer (state query first unless -n; nothing submitted to a stopped / blocked / failing printer; exactly one Print-Job with document octets = input, job-name / requesting-user-name as name, options typed by their text, last wins per key, custom header present) and exit status 0 <=> every exchange succeeded with a successful IPP status. distinct = command line x printer script",
+        "the real ipputil binary (built from /repo's working tree) against scripted loopback printers. (A) every list of 0..2 (3) options from {a=true, a=false, n=0, n=-1, n=2147483647, n=2147483648, x=1.5, k=v=w, e=, t=True} (duplicate keys included) x -j {absent, job, 'jöb name'} x -u {absent, u}; (B) content {0 B, 1 B, %PDF + every byte value, 8191/8192/8193 B, 1 MiB+1 (8 MiB+1)} x {-f file, stdin} x -H {none, X-A=b}; (C) printer scripts: Get-Printer-Attributes answered {idle/none, processing/informational, stopped, idle + each of the 10 blocking reasons as scalar and inside a set, IPP 0x0503 / 0x0400 / 0x0500, HTTP 500} with the state check on, and Print-Job answered {0x0000, 0x0001, 0x040a, 0x0400, 0x0500, 0x0507, HTTP 403, connection cut} with the check on (ready printer) and off. Oracle: request sequence seen by the peer (state query first unless -n; nothing submitted to a stopped / blocked / failing printer; exactly one Print-Job with document octets = input, job-name / requesting-user-name as name, options typed by their text, last wins per key, custom header present) and exit status 0 <=> every exchange succeeded with a successful IPP status. distinct = command line x printer script",
     );
     let bin = ctx.verif_dir.join("target/util/release/ipputil");
     if !bin.exists() {
